@@ -14,9 +14,8 @@ from pair_common import judge, run_scenarios, scenarios
 
 REPO_TEST_MODULES = ["pynetdicom/tests/test_assoc.py", "pynetdicom/tests/test_ae.py", "pynetdicom/tests/test_service_verification.py",
                      "pynetdicom/tests/test_service_storage.py", "pynetdicom/tests/test_events.py"]
-# clauses that hold for any history whatever the test does to the objects; the others assume an undisturbed association
-# (several tests close sockets, set states or feed queues by hand) and are reported as drift for these histories
-ROBUST = {"C27_FsmTable", "C27_OpenOnce", "C27_EstablishedOnce"}
+# tests that reach into the objects under observation, so that their histories are not pynetdicom's own doing
+DISTURBED_TESTS = {"pynetdicom/tests/test_assoc.py::TestAssociation::test_unknown_abort_source": "a handler writes raw bytes with assoc.dul.socket.send(), bypassing the provider"}
 
 
 def repo_test_histories(ctx):
@@ -61,7 +60,7 @@ def repo_test_histories(ctx):
             continue
         r = back[t["id"]]
         evs = [e["k"] if e["k"] != "fsm" else f"Sta{e['a']}+Evt{e['b']}" for e in t["h"]]
-        if v in ROBUST:
+        if r["test"] not in DISTURBED_TESTS:
             ctx.violation({"clause": v, "source": "repository tests", "test": r["test"].split("::")[0]},
                           f"{v}: history of a {r['mode']} association recorded while running {r['test']}: {evs[-30:]}", {"test": r["test"]})
         else:
